@@ -29,6 +29,11 @@ Definition C13_gen (Gconsistent : mtype -> list (list N * pval) -> Prop)
      Gconsistent t data ->
      handle_branch (shape_of t)
      = classify (amem k_id data) (amem k_method data) (amem k_error data)) /\
+  (* ... by the PRESENCE of the id member, never by its value (0, "", null, "0", 2^53, ...) *)
+  (forall (v : pval) data,
+     classify (amem k_id (aset k_id v data)) (amem k_method (aset k_id v data))
+              (amem k_error (aset k_id v data))
+     = classify true (amem k_method data) (amem k_error data)) /\
   (* (ii) registry methods: the handler gets structure(METHOD_TO_TYPES[m][0], wire JSON) ... *)
   (forall obj structure reg st kvs data m r (o : obj),
      Gnested (JObj kvs) ->
@@ -101,6 +106,7 @@ Proof.
   repeat split.
   - exact classify_agrees_jsonrpc.
   - intros. eapply route_is_classify; eassumption.
+  - exact id_presence_not_value.
   - intros. eapply handler_gets_structure; eassumption.
   - intros. eapply reply_structured_as_requested; eassumption.
   - intros. apply generic_leaves_reachable; assumption.
@@ -169,7 +175,7 @@ Proof. eexists. eexists. split; [vm_compute; reflexivity|split; reflexivity]. Qe
 
 Theorem C13_refuted : ~ C13_statement.
 Proof.
-  intros (_ & _ & _ & _ & H & _).
+  intros (_ & _ & _ & _ & _ & H & _).
   destruct (H w_type_name eq_refl I) as (o & Ho & Hl).
   specialize (Hl [Key (S "type_name")] (JStr (S "Foo"))).
   assert (In ([Key (S "type_name")], JStr (S "Foo")) (spec_leaves w_type_name)) as Hin
@@ -221,4 +227,24 @@ Proof.
     exists h. repeat split; [exact Hin|apply str_eqb_eq; exact E1|apply hkind_eqb_eq; exact E2|
                              apply side_eqb_eq; exact E3].
   - reflexivity.
+Qed.
+
+(* falsy ids are ids: a reply under id 0 / "" resolves the request sent under that id, a request
+   under id 0 is a request (and a reply under "0" does not answer the request sent under 0) *)
+Example C13_falsy_ids :
+  (forall i, In i [PNum 0; PStr []; PStr (S "0"); PNum 9007199254740992] ->
+     snd (receive pval id_structure [] (fst (send_request [] st0 (S "x/sent") i))
+            (JObj [(k_jsonrpc, JStr s_version); (k_id, match i with PNum z => JNum z | PStr s => JStr s | _ => JNull end);
+                   (k_result, JNum 1)]))
+     = OResult i (MGeneric GResponse [(k_id, i); (k_jsonrpc, PStr s_version); (k_result, PNum 1)]) true) /\
+  snd (receive pval id_structure [] st0
+         (JObj [(k_jsonrpc, JStr s_version); (k_id, JNum 0); (k_method, JStr (S "x/unknown"))]))
+  = ORequest (PNum 0) (MGeneric GRequest [(k_id, PNum 0); (k_method, PStr (S "x/unknown"));
+                                          (k_jsonrpc, PStr s_version); (k_params, PNull)]) /\
+  snd (receive pval id_structure [] (fst (send_request [] st0 (S "x/sent") (PNum 0)))
+         (JObj [(k_jsonrpc, JStr s_version); (k_id, JStr (S "0")); (k_result, JNum 1)]))
+  = ORejected (-32603) [].
+Proof.
+  split; [|split; vm_compute; reflexivity].
+  intros i [<-|[<-|[<-|[<-|[]]]]]; vm_compute; reflexivity.
 Qed.
